@@ -218,11 +218,18 @@ type c16Rig struct {
 	client grpc_testing.TestServiceClient
 	tick   chan struct{}
 	parked chan struct{}
+	// controlled: the harness owns the ticks of the pool's clean-up loop
+	controlled bool
 }
 
 func newC16Rig() *c16Rig {
 	r := &c16Rig{a: newC16Backend("A"), b: newC16Backend("B"), tick: make(chan struct{}), parked: make(chan struct{}, 64)}
-	// the pool's cleanup loop sleeps through vhook: one pass per tick
+	// the pool's clean-up loop sleeps through vhook: one pass per tick (controlled
+	// mode). If the loop does not come by within 2 s (it may wait on a ticker or
+	// timer instead of time.Sleep) the harness falls back to scaled real time:
+	// every timing primitive of grpc_handler.go runs 200x faster (5 s -> 25 ms).
+	r.controlled = true
+	vhook.TimeScale = 200 // must be set before the pool (and a possible ticker) is created
 	vhook.SleepHook = func(d time.Duration) {
 		r.parked <- struct{}{}
 		<-r.tick
@@ -240,7 +247,12 @@ func newC16Rig() *c16Rig {
 	}
 	r.addr = l.Addr().String()
 	go r.proxy.Serve(l)
-	<-r.parked // the cleanup loop finished its first pass
+	select {
+	case <-r.parked: // the clean-up loop finished its first pass
+	case <-time.After(2 * time.Second):
+		r.controlled = false
+		vhook.SleepHook = nil
+	}
 	r.cc, err = grpc.NewClient(r.addr, grpc.WithTransportCredentials(insecure.NewCredentials()), grpc.WithDefaultCallOptions(grpc.MaxCallRecvMsgSize(16<<20), grpc.MaxCallSendMsgSize(16<<20)))
 	if err != nil {
 		panic(err)
@@ -251,6 +263,10 @@ func newC16Rig() *c16Rig {
 
 // cleanupPass lets the pool's cleanup loop run exactly one pass.
 func (r *c16Rig) cleanupPass() {
+	if !r.controlled {
+		time.Sleep(110 * time.Millisecond) // >= 4 scaled clean-up periods
+		return
+	}
 	r.tick <- struct{}{}
 	<-r.parked
 }
@@ -703,6 +719,7 @@ func c16History(r *c16Rig) {
 			L.Sample(map[string]interface{}{"history": names})
 		}
 	}
+	L.Set("cleanup_loop_controlled_by_harness", r.controlled)
 	L.AddStates(int64(len(states)))
 	L.AddTransitions(transitions)
 	L.AddTraces(int64(len(hists)))
